@@ -42,7 +42,7 @@ def cases(tier, seed):
         return o
 
     for spec in workload.standard_cases(tier, seed, npipe, npipe, opts_fn=opts, frag_share=0.4,
-                                        p={"dense_prob": 0.8, "damage_prob": 0.25, "waters": [0, 3, 6, 10],
+                                        p={"dense_prob": 0.8, "damage_prob": 0.25, "crowd_prob": 0.25, "waters": [0, 3, 6, 10],
                                            "na_prob": 0.08}):
         spec["kind"] = "pipe"
         out.append(spec)
